@@ -128,6 +128,10 @@ type Op struct {
 	Sync bool
 	// NeedsUnsealed: refused on a sealed token (the refusal is the observation then)
 	Run func(s *Shared, id int) string
+	// Expect, when set, is the result the operation has on every shape for every id: known
+	// from the content, not measured - a baseline measured in a process that has already run
+	// other authorizations could itself be the product of state they left behind
+	Expect string
 }
 
 func class(err error) string { return hx.Classify(err) }
@@ -181,9 +185,14 @@ var Ops = []Op{
 		a.AddRule(hx.Rule(refdl.Rule{Head: refdl.A("ok", v("x")), Body: []refdl.Atom{refdl.A("caller", v("x")), refdl.A("right", v("r"), rx.Str("read"))}}))
 		// a check with a pattern of the goroutine's own
 		a.AddCheck(hx.Check(refdl.Check{Queries: []refdl.Rule{{Head: refdl.A("query"), Body: []refdl.Atom{refdl.A("operation", v("o"))}, Exprs: [][]rx.Op{{{Kind: rx.OpValue, V: v("o")}, {Kind: rx.OpValue, V: rx.Str(fmt.Sprintf("^r[e%d]ad$", id))}, {Kind: rx.OpBinary, B: rx.Regex}}}}}}))
+		// … and one that only the goroutine's own name satisfies: a pattern compiled for another
+		// authorizer must never be applied here
+		a.AddFact(hx.Fact(refdl.A("caller_name", rx.Str(fmt.Sprintf("g%d", id)))))
+		a.AddCheck(hx.Check(refdl.Check{Queries: []refdl.Rule{{Head: refdl.A("query"), Body: []refdl.Atom{refdl.A("caller_name", v("n"))}, Exprs: [][]rx.Op{{{Kind: rx.OpValue, V: v("n")}, {Kind: rx.OpValue, V: rx.Str(fmt.Sprintf("^g%d$", id))}, {Kind: rx.OpBinary, B: rx.Regex}}}}}}))
 		a.AddPolicy(hx.Policy(refdl.Policy{Allow: true, Queries: []refdl.Rule{{Head: refdl.A("query"), Body: []refdl.Atom{refdl.A("ok", rx.Int(int64(id)))}}}}))
-		return class(a.Authorize())
-	}},
+		err = a.Authorize()
+		return class(err) + fmt.Sprint(hx.FailedChecks(err))
+	}, Expect: "ok[]"},
 	{Name: "Authorize-denied", Sync: true, Run: func(s *Shared, id int) string {
 		a, err := ownAuthorizer(s)
 		if err != nil {
